@@ -39,6 +39,8 @@ def run(ctx):
     # same-type + - abs neg keep the left operand's unit (they build their result through _val): shared rule with C16
     from . import c16
     c16.r166(ctx, ut)
+    from ..statrules import memo_soundness
+    memo_soundness(ctx, 'R17.11', ['units'])
     from ..statrules import shared_class_state
     shared_class_state(ctx, 'R17.10', sorted(c for c, ci in ctx.prog.classes.items() if ci.module.name == 'units'),
                        'what one quantity stores (e.g. a cache keyed by the unit spelling) is read by quantities of every other class: conversion factor and display '
